@@ -338,6 +338,15 @@ class Node:
             )
 
         if new_data_id is not None:
+            # The new data_id must be unique among the siblings of all nodes
+            # that will change (check before anything is modified)
+            for n in cur_nodes if with_clones else (self,):
+                for sibling in n._parent._children:  # type: ignore
+                    if sibling is not n and sibling._data_id == new_data_id:
+                        raise UniqueConstraintError(
+                            f"Node.data already exists in parent: {sibling}"
+                        )
+
             # data_id (and possibly data) changes: we have to update the map
             if has_clones:
                 if with_clones:
